@@ -159,11 +159,68 @@ fn too_long_r5(r: i64, pw: &str) -> bool {
     r >= 5 && rc::utf8_prep_full(pw).map(|b| b.len() > 127).unwrap_or(false)
 }
 
+/// For documents of long strings: which strings differ, with format and length (the values would fill pages).
+fn long_string_note(plain: &BTreeMap<ObjectId, Object>, got: &BTreeMap<ObjectId, Object>, m: String) -> String {
+    fn fmt(f: &lopdf::StringFormat) -> &'static str {
+        match f {
+            lopdf::StringFormat::Literal => "literal",
+            lopdf::StringFormat::Hexadecimal => "hexadecimal",
+        }
+    }
+    fn go(a: &Object, b: &Object, path: &mut String, out: &mut Vec<String>) {
+        let keep = path.len();
+        match (a, b) {
+            (Object::String(x, fx), Object::String(y, fy)) if x != y => out.push(format!(
+                "{}: plaintext a {} string of {} bytes, got a {} string of {} bytes{}",
+                path,
+                fmt(fx),
+                x.len(),
+                fmt(fy),
+                y.len(),
+                if x.len() == y.len() { format!(" ({} of them differ)", x.iter().zip(y.iter()).filter(|(p, q)| p != q).count()) } else { String::new() }
+            )),
+            (Object::Array(x), Object::Array(y)) => {
+                for (i, (p, q)) in x.iter().zip(y.iter()).enumerate() {
+                    path.push_str(&format!("[{}]", i));
+                    go(p, q, path, out);
+                    path.truncate(keep);
+                }
+            }
+            (Object::Dictionary(x), Object::Dictionary(y)) => {
+                for (k, p) in x.iter() {
+                    if let Ok(q) = y.get(k) {
+                        path.push('/');
+                        path.push_str(&String::from_utf8_lossy(k));
+                        go(p, q, path, out);
+                        path.truncate(keep);
+                    }
+                }
+            }
+            _ => {}
+        }
+    }
+    if m.len() <= 1500 {
+        return m;
+    }
+    let mut out = vec![];
+    for (id, p) in plain {
+        if let Some(o) = got.get(id) {
+            go(p, o, &mut format!("obj({} {})", id.0, id.1), &mut out);
+        }
+    }
+    if out.is_empty() {
+        vharness::run::truncate(&m, 600)
+    } else {
+        format!("{} string(s) differ from the plaintext: {}", out.len(), out.iter().take(3).cloned().collect::<Vec<_>>().join("; "))
+    }
+}
+
 fn diff_plain(plain: &Document, d: &Document) -> Option<String> {
     if d.trailer.has(b"Encrypt") {
         return Some("trailer still has /Encrypt".into());
     }
     let m = cmp::diff_objects(&plain.objects, &d.objects)?;
+    let m = long_string_note(&plain.objects, &d.objects, m);
     // deep documents: say at which nesting depth the first string differs (the path alone is hard to read)
     let depth = plain.objects.iter().filter_map(|(id, p)| d.objects.get(id).and_then(|o| menu::first_differing_string_depth(p, o))).min();
     match depth {
@@ -191,7 +248,7 @@ fn ref_content(k: Option<&Counters>, plain: &Document, container: &Document, enc
     if let Some((path, e)) = rep.errors.first() {
         return Some(format!("{} object(s) cannot be decrypted, first {}: {}", rep.errors.len(), path, e));
     }
-    cmp::diff_objects(&plain.objects, &objs)
+    cmp::diff_objects(&plain.objects, &objs).map(|m| long_string_note(&plain.objects, &objs, m))
 }
 
 /// What lopdf produced in direction A: the encrypted document (in memory, or after lopdf's writer and
@@ -1396,6 +1453,97 @@ fn long_password_cases(run: &Run) -> Vec<Case> {
     out
 }
 
+/// PDFDocEncoding family (revisions 2-4, Algorithm 2 step a): for EVERY defined cell of PDFDocEncoding (232: TAB, LF, CR,
+/// 0x18-0x1F, 0x20-0x7E, 0x80-0x9E, 0xA0, 0xA1-0xFF without 0xAD) a user and an owner password containing that character
+/// alone, at the start, in the middle and at the end of an ASCII word, both directions: the reference converts the
+/// passwords with its own table (`pdfdoc_code`, cross-checked against the by-code table in the self-test), so a
+/// dropped or differently encoded character shows as a different O, U or file key (A) or as a rejected password (B).
+/// Plus ten pairs of several such characters: passwords made of nothing else, only one password affected, control
+/// characters, such a character on either side of the 32-byte cut.
+fn pdfdoc_password_cases(run: &Run) -> Vec<Case> {
+    let mut out = vec![];
+    let all = menu::all_flags();
+    let cells = rc::pdfdoc_cells();
+    for dir in ['A', 'B'] {
+        // quick: one configuration per revision (R2: V1; R3: V2 with 128 bits; R4: V4 with AESV2)
+        let quick_cfg = |c: &Config| c.em && !matches!(c.ver, Ver::V2(40)) && !(c.ver == Ver::V4 && c.strf == F::Rc4);
+        let cfgs: Vec<Config> = configs_b().into_iter().filter(|c| c.revision() <= 4 && representative(c) && (run.thorough || quick_cfg(c))).collect();
+        for (ci, cfg) in cfgs.iter().enumerate() {
+            for (code, ch) in &cells {
+                for position in 0..4usize {
+                    let pair = menu::pdfdoc_cell_pair(*code, *ch, position);
+                    assert!(rc::prep(cfg.revision(), &pair.1).is_ok() && rc::prep(cfg.revision(), &pair.2).is_ok() && pair.1 != pair.2);
+                    let base = Case { pattern: (ci + *code as usize + position) % 3, ..base_case(dir, cfg, DocKind::Page, &pair, all) };
+                    out.push(base.clone());
+                    if run.thorough && position == (ci + *code as usize) % 4 {
+                        out.push(Case { via_file: true, table: (*code as usize + position) % 2 == 0, ..base });
+                    }
+                }
+            }
+        }
+        let multi_cfgs: Vec<Config> = configs_b().into_iter().filter(|c| representative(c) && (c.em || run.thorough) && (c.revision() <= 5 || run.thorough)).collect();
+        for (ci, cfg) in multi_cfgs.iter().enumerate() {
+            let r = cfg.revision();
+            for (pi, (n, u, o)) in menu::pdfdoc_special_pairs().into_iter().enumerate() {
+                // (revisions 5 and 6: SASLprep refuses control characters)
+                if rc::prep(r, &u).is_err() || rc::prep(r, &o).is_err() {
+                    continue;
+                }
+                let pair = (n.to_string(), u, o);
+                let base = Case { pattern: (ci + pi) % 3, ..base_case(dir, cfg, DocKind::Page, &pair, all) };
+                out.push(base.clone());
+                out.push(Case { via_file: true, table: (ci + pi) % 2 == 0, ..base });
+            }
+        }
+    }
+    out
+}
+
+/// String size / format / content family: the document with strings of 2^e - 1, 2^e, 2^e + 1 bytes (e = 7..12) x {literal,
+/// hexadecimal} x {printable, mixed, all-binary, escape-heavy}, each in an ordinary dictionary / array AND as the
+/// Contents of a signature dictionary, and the document with the same axes at 2^16 +- 1; both directions, in memory
+/// and through lopdf's writer and loader in BOTH cross-reference formats. The reference leaves exactly the
+/// hexadecimal Contents of signature dictionaries alone and processes every other string.
+fn sized_cases(run: &Run) -> Vec<Case> {
+    let mut out = vec![];
+    let all = menu::all_flags();
+    let pairs = pairs();
+    for dir in ['A', 'B'] {
+        let cfgs = if dir == 'A' { configs_a() } else { configs_b() };
+        for (ci, cfg) in cfgs.iter().filter(|c| representative(c)).enumerate() {
+            let r = cfg.revision();
+            let cipher_cfg = cfg.em && (matches!(cfg.ver, Ver::V2(128) | Ver::R5 | Ver::V5) || (cfg.ver == Ver::V4 && cfg.strf == F::Aes128));
+            for (pi, pair) in pairs.iter().enumerate() {
+                if !pair_ok(r, &pair.0, &pair.1, &pair.2) {
+                    continue;
+                }
+                // the empty user password: the loader itself decrypts what the reference encrypted (direction B)
+                let in_quick = cipher_cfg && (pair.0 == "distinct" || (pair.0 == "empty_user" && dir == 'B' && r != 6));
+                if !(in_quick || (run.thorough && (quick3(&pair.0) || (pair.0 == "latin1" && r != 6)))) {
+                    continue;
+                }
+                let base = Case { pattern: (ci + pi) % 3, ..base_case(dir, cfg, DocKind::BigStrings, pair, all) };
+                out.push(base.clone());
+                if dir == 'B' || (!pair.1.is_empty() && !pair.2.is_empty()) {
+                    out.push(Case { via_file: true, table: true, ..base.clone() });
+                    out.push(Case { via_file: true, table: false, ..base.clone() });
+                }
+                let huge_quick = cipher_cfg && !matches!(cfg.ver, Ver::R5 | Ver::V5) && pair.0 == "distinct";
+                if huge_quick || (run.thorough && cipher_cfg && (pair.0 == "distinct" || (pair.0 == "empty_user" && dir == 'B'))) {
+                    let huge = Case { kind: DocKind::HugeStrings, ..base };
+                    if run.thorough {
+                        out.push(huge.clone());
+                    }
+                    if dir == 'B' || (!pair.1.is_empty() && !pair.2.is_empty()) {
+                        out.push(Case { via_file: true, table: (ci + pi) % 2 == 0, ..huge });
+                    }
+                }
+            }
+        }
+    }
+    out
+}
+
 fn cases(run: &Run) -> Vec<Case> {
     let mut out = vec![];
     let thorough = run.thorough;
@@ -1607,6 +1755,8 @@ fn main() {
          plus the extra-crypt-filter family (both directions and K): configurations whose CF dictionary holds MORE crypt filters than StmF / StrF name (one extra per CFM of the version, names sorting before / between / after the default ones; V4 x {RC4,AESV2,Identity}^2, revision 5 and V5 x {AESV3,Identity}^2; B also with StmF / StrF absent) x documents whose streams carry Crypt overrides naming EVERY CF entry, /Identity and nothing, in the dictionary form, the one-element array form and the array form next to a second filter; the dictionary lopdf writes must define every registered filter, the kept state must re-encode them all; \
          plus the key-name family: strings of 16..33 bytes in literal AND hexadecimal format under 34 key names that look special (Contents, ID, O, U, OE, UE, Perms, Cert, Filter, Encrypt, CF, ...) in ordinary dictionaries - top-level, nested, in arrays, in stream dictionaries, in dictionaries typed /XRef, /ObjStm, /Encrypt and in dictionaries shaped like an encryption dictionary (nested and top-level) - all of which both sides must process; and real signature dictionaries (/Type /Sig or /DocTimeStamp + /ByteRange + hexadecimal /Contents), whose Contents the reference leaves alone (ISO 32000-2 7.6.2) while it processes every other string in them; in direction B the encryption dictionary takes the lowest free object number, i.e. sits in front of objects that must still be decrypted when the numbering has gaps; \
          plus the long-password family (revisions 5, 6, both directions): 11 pairs of passwords of 126..180 UTF-8 bytes (all-Cyrillic, all-CJK, all 4-byte, mixed scripts, cut exactly on a character boundary, only one password long, SASLprep shrinking below / expanding beyond 127 bytes) next to the three pairs with a character across byte 127; \
+         plus the PDFDocEncoding password family (revisions 2-4, both directions): for every one of the 232 defined cells of PDFDocEncoding (TAB, LF, CR, 0x18-0x1F, 0x20-0x7E, 0x80-0x9E, 0xA0, 0xA1-0xFF without 0xAD) a user and an owner password containing that character alone, at the start, in the middle and at the end of an ASCII word (4 pairs per cell) x one configuration per revision, converted by the reference with its own table; and 10 pairs of several such characters (passwords of nothing else, one password affected, controls, a character on either side of the 32-byte cut; also revision 5 where SASLprep admits them), in memory and through writer+loader; \
+         plus the string size / format / content family (both directions): strings of 2^e - 1, 2^e, 2^e + 1 bytes for e = 7..12 (second document: e = 16) x {literal, hexadecimal} x {printable, mixed, no printable byte, escape-heavy} in ordinary dictionaries / arrays AND as Contents of signature dictionaries (the reference leaves exactly the hexadecimal ones alone), in memory and through lopdf's writer and loader in both cross-reference formats; \
          plus direction K: {protected by the reference, protected by lopdf} x configuration x password pair x permission word x {opened by lopdf as user, as owner, by the loader's empty password} x {in memory, through writer+loader}: the state lopdf keeps is re-encoded and used to encrypt again, the reference compares every field with the first protection and opens the result with both passwords; \
          a failing direction-B case is executed three times; a failing direction-A case keeps the document lopdf wrote and the reference judges that artefact three times",
     );
@@ -1632,6 +1782,25 @@ fn main() {
     list.extend(xcf);
     list.extend(keyf);
     list.extend(longf);
+    let (pdfdocf, sizedf) = (pdfdoc_password_cases(&run), sized_cases(&run));
+    run.set("cases_pdfdoc_password_family", json!(pdfdocf.len()));
+    run.set("cases_pdfdoc_password_family_one_cell_per_password", json!(pdfdocf.iter().filter(|c| c.pair.starts_with("pdfdoc_cell_")).count()));
+    run.set("pdfdoc_cells_swept", json!(rc::pdfdoc_cells().iter().map(|c| format!("{:02x}", c.0)).collect::<Vec<_>>().join(" ")));
+    run.set("pdfdoc_password_pairs_of_several_characters", json!(menu::pdfdoc_special_pairs().iter().map(|p| json!([p.0, p.1, p.2])).collect::<Vec<_>>()));
+    run.set("cases_string_size_family", json!(sizedf.iter().filter(|c| c.kind == DocKind::BigStrings).count()));
+    run.set("cases_string_size_family_64k", json!(sizedf.iter().filter(|c| c.kind == DocKind::HugeStrings).count()));
+    run.set(
+        "string_size_family",
+        json!({"lengths": menu::BIG_LENS.to_vec(), "lengths_64k_document": menu::HUGE_LENS.to_vec(), "formats": ["literal", "hexadecimal"],
+               "contents": [menu::Fill::Printable.name(), menu::Fill::Mixed.name(), menu::Fill::Binary.name(), menu::Fill::Tricky.name()],
+               "placements": ["entry of an ordinary dictionary", "array element", "Contents of a signature dictionary (indirect)", "Contents of a signature dictionary that is the direct value of a field", "Contents of a signature dictionary inside an array"]}),
+    );
+    // the cases of the long-string documents cost tens of milliseconds each: spread them over the list
+    let step = (list.len() / sizedf.len().max(1)).max(1);
+    for (k, c) in sizedf.into_iter().enumerate() {
+        list.insert((k * (step + 1)).min(list.len()), c);
+    }
+    list.extend(pdfdocf);
     run.set("cases_deep_nesting_family", json!(deep.len()));
     run.set("cases_file_identifier_family", json!(idf.len()));
     run.set("cases_kept_state_direction_K", json!(kept.len()));
